@@ -71,6 +71,7 @@ type Op struct {
 	P  string   `json:"p,omitempty"`  // pattern / prefix
 	Ms []string `json:"ms,omitempty"` // methods
 	Ps []string `json:"ps,omitempty"` // multi: several patterns registered with Ms
+	MW []string `json:"mw,omitempty"` // handle: middlewares given with the registration
 }
 
 func qjoin(ms []string) string {
@@ -87,6 +88,9 @@ func qjoin(ms []string) string {
 func (o Op) String() string {
 	switch o.K {
 	case "handle":
+		if len(o.MW) > 0 {
+			return fmt.Sprintf("Handle(%q,[%s],mw%v)", o.P, qjoin(o.Ms), o.MW)
+		}
 		return fmt.Sprintf("Handle(%q,[%s])", o.P, qjoin(o.Ms))
 	case "remove":
 		return fmt.Sprintf("Remove(%q,[%s])", o.P, qjoin(o.Ms))
@@ -143,7 +147,7 @@ func ApplyImpl(r *Router, o Op) (any, bool) {
 	return Guard(func() {
 		switch o.K {
 		case "handle":
-			r.Handle(o.P, hv.Route(HID(o.P, o.Ms)), nil, o.Ms...)
+			r.Handle(o.P, hv.Route(HID(o.P, o.Ms)), mws(nil, o.MW), o.Ms...)
 		case "multi":
 			for _, p := range o.Ps {
 				r.Handle(p, hv.Route(HID(p, o.Ms)), nil, o.Ms...)
